@@ -1,5 +1,5 @@
 """C17 Removing/re-creating loggers never loses statements nor frees state in use."""
-from lib import vf, opxlib
+from lib import vf, opxlib, wmmlib
 
 LEVEL = "model_checking"
 SRC = "engines/opx/sc_c17.cpp"
@@ -11,6 +11,7 @@ def prebuild():
     opxlib.build("sc_c17_asan", SRC, opxlib.ASAN)
     opxlib.build("sc_c17", SRC)
     vf.build("c17_registry", SRC_REG, ["-O1"])
+    wmmlib.build_sys()
 
 
 def jobs(tier, asan):
@@ -53,6 +54,20 @@ def run(ctx):
     reg = vf.build("c17_registry", SRC_REG, ["-O1"])
     rr = vf.run(reg, ["--depth", 10 if ctx.tier == "quick" else 18], timeout=600)
     ctx.absorb(rr, "c17_registry")
+    # (c) below Engine B's granularity: real log calls, remove_logger / remove_logger_blocking (also from a deeper frame) and
+    # re-creation under the same name against real backend polls (clean-up of invalidated loggers included), at every atomic
+    # operation of either side
+    hs = wmmlib.build_sys()
+    q = ctx.tier == "quick"
+    sj = [wmmlib.sys_job(hs, "sys", 0, 2, "l1,R0"), wmmlib.sys_job(hs, "sys", 0, 2, "l1,l2,R0"), wmmlib.sys_job(hs, "sys", 0, 1, "l1,B0,c0,l2"),
+          wmmlib.sys_job(hs, "sys", 0, 2, "l1,B0,c0,l2,B1"), wmmlib.sys_job(hs, "sys", 1, 2, "R0", "l1,R0"), wmmlib.sys_job(hs, "sys", 0, 2, "l1,B0,x0")]
+    if not q:
+        sj += [wmmlib.sys_job(hs, "sys", 1, 1, "l1,B0", "l1", deadline=1500), wmmlib.sys_job(hs, "sys", 1, 2, "l1,R0", "l1,R0", deadline=1500),
+               wmmlib.sys_job(hs, "sys", 0, 3, "l1,B0,c0,l2,B1,c0,l3", deadline=1500), wmmlib.sys_job(hs, "sys", 1, 1, "B0", "l1,B0", deadline=1500)]
+    wmmlib.run_sys(ctx, sj)
+    ctx.rule += ("; whole-system exploration at atomic-operation granularity (Engine A): log / remove_logger / remove_logger_blocking / re-create "
+                 "of one or two threads against real backend polls: statements at the sink of the logger generation they were logged through, each sink "
+                 "destroyed exactly once after its logger's removal and after its last statement, blocking removal complete at return")
     # forking an AddressSanitizer process is ~10x slower: the sanitizer build covers the lower preemption bound, the plain
     # build (quill's asserts live, destruction marks checked) the higher one
     exe_asan = opxlib.build("sc_c17_asan", SRC, opxlib.ASAN)
@@ -64,6 +79,8 @@ def run(ctx):
 
 
 def replay(rep, extra):
+    if wmmlib.is_sys_record(rep["record"]):
+        return wmmlib.replay_sys("C17", rep)
     if "history" in rep["record"]:
         reg = vf.build("c17_registry", SRC_REG, ["-O1"])
         rr = vf.run(reg, ["--replay", rep["record"]["case"]], timeout=120)
